@@ -8,6 +8,29 @@ pub fn main(args: &Args) {
     let sched = args.extra.get("sched").map(|s| s == "1").unwrap_or(false);
     let src = std::fs::read_to_string(file).unwrap();
     let inp = |t: usize, c: usize| (t as f64) * 0.5 + c as f64;
+    if args.extra.contains_key("trace") {
+        use mimium_lang::verif;
+        verif::configure(verif::Config { record_state: true, assert_bounds: false, step_budget: 0 });
+        for b in [Backend::Vm, Backend::Wasm] {
+            let _ = verif::take_state_events();
+            match crate::run::Session::build(b, &src, sched, Some(std::path::PathBuf::from(file))) {
+                Ok(mut s) => {
+                    println!("{} skeleton: {:?}", b.name(), s.skeleton);
+                    let _ = verif::take_state_events();
+                    for t in 0..n.min(3) {
+                        let r = s.step(&vec![0.5; s.io.input as usize]);
+                        println!("  sample {t}: {:?}", r.map(|x| x.out));
+                        for e in verif::take_state_events() {
+                            println!("     {:?} ctx={} pos={} size={} len={}", e.kind, e.ctx_fn, e.pos, e.size, e.len);
+                        }
+                        println!("     words: {:?}", s.state_words());
+                    }
+                }
+                Err(e) => println!("{}: {}", b.name(), e.short()),
+            }
+        }
+        return;
+    }
     for b in [Backend::Vm, Backend::Wasm] {
         let path = Some(std::path::PathBuf::from(file));
         match run_program(b, &src, sched, n, &inp, true, path) {
